@@ -216,6 +216,11 @@ func scanFile(w *world, pa *purity, p *packages.Package, f *ast.File, add func(t
 					if isRandPkg(ip) {
 						add(n.Pos(), fname, "RandUse")
 					}
+					// iterator / collection helpers that traverse a map in its (random) iteration order without a range
+					// statement over the map in this repository: maps.Keys, maps.Values, maps.All (std and x/exp)
+					if (ip == "maps" || ip == "golang.org/x/exp/maps") && (n.Sel.Name == "Keys" || n.Sel.Name == "Values" || n.Sel.Name == "All") {
+						add(n.Pos(), fname, "MapRangeOrderSensitive")
+					}
 					if ip == "time" && (n.Sel.Name == "Now" || n.Sel.Name == "Since" || n.Sel.Name == "Until") {
 						kind := "WallClock"
 						// telemetry-only if some enclosing call is telemetry.X(...)
